@@ -7,10 +7,12 @@ THEOREMS = [("FlatModel.Props.C15", t) for t in (
     "FC.C15.readSlice_eq", "FC.C15.readSlice_cmp", "FC.C15.readSlice_eq_cmp_indep", "FC.C15.lexCmp_refl", "FC.C15.lexCmp_antisymm",
     "FC.C15.lexCmp_trans", "FC.C15.lexCmp_eq_iff", "FC.C15.lexCmp_lawful", "FC.C15.listEq_iff_lexCmp_eq",
     "FC.C15.readSlice_cmp_eq_iff", "FC.C15.readSlice_cmp_antisymm", "FC.C15.readSlice_cmp_trans", "FC.C15.readSlice_eq_iff_cmp_eq")]
+THEOREMS += [("FlatModel.Props.C15b", t) for t in (
+    "FC.C15.wrapped_eq", "FC.C15.wrapped_cmp", "FC.C15.wrapped_cmp_arms", "FC.C15.wrapped_eq_cmp_indep", "FC.C15.wrapped_cmp_borrowAs", "FC.C15.huffman_items_cmp", "FC.C15.huffman_item_cmp_borrowed", "FC.C15.huffman_pushed_items_eq", "FC.C15.symsCmp_lawful", "FC.C15.symsCmp_lawful_nested", "FC.C15.wrapped_cmp_refl", "FC.C15.wrapped_cmp_eq_iff", "FC.C15.wrapped_cmp_antisymm", "FC.C15.wrapped_cmp_swap", "FC.C15.wrapped_cmp_trans", "FC.C15.wrapped_eq_iff_cmp_eq", "FC.Wrapped.sliceCmp_eq", "FC.Wrapped.sliceEq_eq")]
 PROFILES = {"quick": ["checked"], "thorough": ["checked", "wrapping"], "search": ["checked"]}
 RULE = ("all pairs of items drawn from small value domains (prefixes of one another, equal content in different representations "
-        "and different regions, different lengths) on every entry whose read item is Ord, including Huffman items across raw and "
-        "encoded containers; expected ==, cmp and partial_cmp computed from the owned values by the reference lexicographic order; "
+        "and different regions, different lengths) on every entry whose read item is Ord, including Huffman items across raw "
+        "containers and containers encoded with two different codes over the same symbols; expected ==, cmp and partial_cmp computed from the owned values by the reference lexicographic order; "
         "non-trivial when the two items differ in representation or region, or one is a proper prefix of the other")
 
 
@@ -87,7 +89,26 @@ def one(cat, rng):
         b.push(target, w, b.form_for(w))
     na, nc = len(b.h["a"].vals), len(b.h[target].vals)
     pairs = [(("a", i), (target, j)) for i in range(na) for j in range(nc)] + [(("a", i), ("a", j)) for i in range(na) for j in range(na)]
-    for (h1, i), (h2, j) in pairs[: 40]:
+    if huff:
+        # a third container encoded with a *different* code over the same symbols (skewed statistics): equal
+        # content then occupies different bit ranges in "e" and "f"
+        b.new("g")
+        for v in vals:
+            b.push("g", v, b.form_for(v))
+        heavy = [x for x in vals if len(x)]
+        if heavy:
+            hv = rng.pick(heavy)
+            sym = hv[rng.below(len(hv)):][:1]
+            for _ in range(3 + rng.below(6)):
+                w = sym * (4 + rng.below(12))
+                b.push("g", w, b.form_for(w))
+        b.merge("f", ["g"])
+        for v in vals:
+            b.push("f", v, b.form_for(v))
+        nf = len(b.h["f"].vals)
+        cross = [(("e", i), ("f", j)) for i in range(nc) for j in range(nf)] + [(("f", i), ("a", j)) for i in range(nf) for j in range(na)]
+        pairs = pairs[:24] + cross[:24]
+    for (h1, i), (h2, j) in pairs[: 48]:
         x, y = b.h[h1].vals[i], b.h[h2].vals[j]
         c = cmp_vals(b.sh, x, y)
         r1 = rng.pick(["backed", "borrowed"])
